@@ -219,6 +219,16 @@ func (c *SCtx) addr(e *SExpr) *Val {
 		if _, ok := ex.p.cs.Ghosts[e.Name]; ok {
 			return &Val{K: KPtr, IsNil: False, Typ: types.NewPointer(ex.ghostType(ex.ghost, e.Name)), Tg: []Target{{G: True, Loc: Loc{Obj: ex.ghost, Steps: []Step{{Name: "$" + e.Name}}}}}}
 		}
+		// a package-level variable of the contract's package
+		for _, sp := range ex.p.ssaProg.AllPackages() {
+			if sp.Pkg.Path() != c.pkg {
+				continue
+			}
+			if g, ok := sp.Members[e.Name].(*ssa.Global); ok {
+				gobj := ex.globalObj(g)
+				return &Val{K: KPtr, IsNil: False, Typ: types.NewPointer(gobj.Typ), Tg: []Target{{G: True, Loc: Loc{Obj: gobj}}}}
+			}
+		}
 		return nil
 	case "sel":
 		var base *Val
@@ -576,6 +586,23 @@ func (c *SCtx) eval(e *SExpr) *Val {
 			bt = ex.p.basicType(e.Type)
 			if ww, _, ok := intWidth(bt); ok {
 				w = ww
+			}
+		}
+		if c.goal && e.Op == "forall" && ex.expandQ {
+			// package initializers: a quantifier over a constant range is expanded into its instances, so that
+			// reads of tables initialised by composite literals fold to the constants that were stored
+			if lo, hi, body, ok := constRange(e); ok && hi-lo <= 8192 {
+				conj := True
+				for k := lo; k < hi; k++ {
+					c3 := *c
+					c3.env = map[string]*Val{}
+					for kk, v := range c.env {
+						c3.env[kk] = v
+					}
+					c3.env[e.Name] = &Val{K: KScalar, Typ: bt, T: BVConst(k, w)}
+					conj = And(conj, c3.bool(body))
+				}
+				return &Val{K: KScalar, Typ: types.Typ[types.Bool], T: conj}
 			}
 		}
 		if c.goal && e.Op == "forall" {
@@ -1051,4 +1078,25 @@ func (fr *Frame) latestAlloc(name string) *ssa.Alloc {
 		}
 	}
 	return best
+}
+
+
+// constRange recognises  forall v :: c1 <= v && v < c2 ==> body  with integer literals c1, c2.
+func constRange(e *SExpr) (lo, hi int64, body *SExpr, ok bool) {
+	b := e.Args[0]
+	if b.Op != "bin" || b.Name != "==>" {
+		return
+	}
+	g := b.Args[0]
+	if g.Op != "bin" || g.Name != "&&" {
+		return
+	}
+	l, r := g.Args[0], g.Args[1]
+	if l.Op != "bin" || l.Name != "<=" || l.Args[0].Op != "num" || l.Args[1].Op != "id" || l.Args[1].Name != e.Name {
+		return
+	}
+	if r.Op != "bin" || r.Name != "<" || r.Args[1].Op != "num" || r.Args[0].Op != "id" || r.Args[0].Name != e.Name {
+		return
+	}
+	return l.Args[0].Num.Int64(), r.Args[1].Num.Int64(), b.Args[1], true
 }
